@@ -184,7 +184,10 @@ func mergeSameAlias(selections []*graphql.Selection) ([]*graphql.Selection, erro
 
 			seenSelections := make(map[string]struct{}, len(selection.SelectionSet.Selections))
 			for _, s := range selection.SelectionSet.Selections {
-				if _, ok := seenSelections[s.Alias]; !ok {
+				// Only a repeated leaf may be dropped. Repeated selections with
+				// sub-selections can each select different children; they are
+				// merged when the combined selection set is flattened.
+				if _, ok := seenSelections[s.Alias]; !ok || s.SelectionSet != nil {
 					seenSelections[s.Alias] = struct{}{}
 					last.SelectionSet.Selections = append(last.SelectionSet.Selections, s)
 				}
